@@ -69,6 +69,12 @@ func (w *World) VerifyFunction(fn *ssa.Function, opts VerifyOpts) (res *FuncResu
 		st.regs[p] = v
 		ex.assumeParamFacts(st, v.T, p.Type())
 	}
+	if fn.Signature.Recv() != nil && len(fn.Params) > 0 {
+		if _, ok := fn.Params[0].Type().Underlying().(*types.Pointer); ok {
+			// T13: methods are invoked on non-nil receivers
+			st.Assume(Not(Eq(st.regs[fn.Params[0]].T, NilRef)))
+		}
+	}
 	for i, fv := range fn.FreeVars {
 		_ = i
 		_ = fv
@@ -85,9 +91,9 @@ func (w *World) VerifyFunction(fn *ssa.Function, opts VerifyOpts) (res *FuncResu
 			fr.Bindings = append(fr.Bindings, Val{Ptr: &Loc{Cell: id, Pointee: elem}})
 		}
 	}
-	if ex.LevelChk {
-		fr.Lvl = Var("lvl", SInt)
-	}
+	fr.Lvl = Var("lvl", SInt)
+	st.ghost["$cap"] = SV{T: Var("cap0", SInt), Ty: tInt}
+	st.ghost["$dom"] = SV{T: Var("dom0", SInt), Ty: tInt}
 	fr.Entry = st.Clone()
 	ctr := fr.Ctr
 	env := ex.newEnv(fr, st)
@@ -120,6 +126,7 @@ func (w *World) VerifyFunction(fn *ssa.Function, opts VerifyOpts) (res *FuncResu
 			st.Assume(t)
 		}
 	}
+	ex.assumeGlobalInvs(fr, st)
 	// type invariants of pointer-typed parameters / receiver
 	for _, p := range fn.Params {
 		if _, ok := p.Type().Underlying().(*types.Pointer); ok {
@@ -202,8 +209,18 @@ func (ex *Ex) checkPosts(fr *Frame, st *State, results []Val, opts VerifyOpts) {
 			name := fmt.Sprintf("%s#post.%d", fr.Name, en.Ord)
 			ex.oblige(fr, st, name, "post", ex.clauseProps(fr, en), "postcondition: "+en.Text, t, token.NoPos)
 		}
-		if ex.LevelChk && ctr.Level != nil {
-			ex.checkLevelPost(fr, st, ctr, svs)
+		for _, name := range ctr.Maintains {
+			for _, gi := range ex.W.GlobalInvs {
+				if gi.Name != name {
+					continue
+				}
+				genv := &Env{ex: ex, st: st, vars: map[string]SV{}, pkgName: gi.PkgName}
+				t, err := ex.trBool(genv, gi.E)
+				if err != nil {
+					unsupp("global invariant %s: %v", gi.Name, err)
+				}
+				ex.oblige(fr, st, fr.Name+"#maintains."+gi.Name, "post", ex.safetyProps(fr), "global invariant re-established: "+gi.Text, t, token.NoPos)
+			}
 		}
 	}
 	if opts.ExtraPosts != nil {
@@ -227,6 +244,79 @@ func (ex *Ex) wantClause(ctr *Contract, c *Clause) bool {
 		}
 	}
 	return len(ps) == 0
+}
+
+func exprIdents(e *Expr, out map[string]bool) {
+	if e == nil {
+		return
+	}
+	if e.Kind == "ident" {
+		out[e.Name] = true
+	}
+	for _, a := range e.Args {
+		exprIdents(a, out)
+	}
+}
+
+// readsGlobals: package-level variables referenced by fn or by its un-contracted module callees.
+func (w *World) readsGlobals(fn *ssa.Function, depth int, seen map[*ssa.Function]bool, out map[*ssa.Global]bool) {
+	if fn == nil || seen[fn] || depth > 4 {
+		return
+	}
+	seen[fn] = true
+	for _, b := range fn.Blocks {
+		for _, ins := range b.Instrs {
+			for _, op := range ins.Operands(nil) {
+				if op == nil || *op == nil {
+					continue
+				}
+				if g, ok := (*op).(*ssa.Global); ok {
+					out[g] = true
+				}
+			}
+			if c, ok := ins.(*ssa.Call); ok {
+				if callee := c.Call.StaticCallee(); callee != nil && callee.Pkg != nil && w.InModule(callee.Pkg.Pkg) {
+					if ctr := w.Contracts[callee]; ctr == nil || ctr.Inline {
+						w.readsGlobals(callee, depth+1, seen, out)
+					}
+				}
+			}
+		}
+	}
+	for _, af := range fn.AnonFuncs {
+		w.readsGlobals(af, depth+1, seen, out)
+	}
+}
+
+func (ex *Ex) assumeGlobalInvs(fr *Frame, st *State) {
+	reads := map[*ssa.Global]bool{}
+	if fr.Fn != nil {
+		ex.W.readsGlobals(fr.Fn, 0, map[*ssa.Function]bool{}, reads)
+	}
+	for _, gi := range ex.W.GlobalInvs {
+		if fr.Fn != nil {
+			ids := map[string]bool{}
+			exprIdents(gi.E, ids)
+			rel := false
+			if sp := ex.W.pkgByNameOne(gi.PkgName); sp != nil {
+				for id := range ids {
+					if g, ok := sp.Members[id].(*ssa.Global); ok && reads[g] {
+						rel = true
+					}
+				}
+			}
+			if !rel {
+				continue
+			}
+		}
+		genv := &Env{ex: ex, st: st, vars: map[string]SV{}, pkgName: gi.PkgName}
+		t, err := ex.trBool(genv, gi.E)
+		if err != nil {
+			ex.W.warnf("global invariant %s: %v", gi.Name, err)
+			continue
+		}
+		st.Assume(t)
+	}
 }
 
 // ---------------- lemmas ----------------
